@@ -319,9 +319,13 @@ SMALL_OPS = [
 ]
 
 
-def exhaustive(depth, rng=None, limit=None):
+NSTD_OPS = 40   # SMALL_OPS[:NSTD_OPS] = the alphabet without the raw-pointer ops
+
+
+def exhaustive(depth, rng=None, limit=None, ops=None):
     # every history ends with the white-box view of both variables (all prefixes are histories of the scope too)
-    hs = [list(p) + ["state 0", "state 1", "heap"] for d in range(1, depth + 1) for p in itertools.product(SMALL_OPS, repeat=d)]
+    ops = SMALL_OPS if ops is None else ops
+    hs = [list(p) + ["state 0", "state 1", "heap"] for d in range(1, depth + 1) for p in itertools.product(ops, repeat=d)]
     if limit and len(hs) > limit:
         rng.shuffle(hs)
         hs = hs[:limit]
@@ -741,7 +745,10 @@ def histories_for(ctx):
     quick = ctx.tier == "quick"
     hs = C.load_corpus(ctx.prop)
     ncorpus = len(hs)
-    ex = exhaustive(3 if quick else 4)
+    # length <= 3 over the whole alphabet; thorough adds length 4 over the alphabet without the raw-pointer ops
+    ex = exhaustive(3)
+    if not quick:
+        ex += [list(p) + ["state 0", "state 1", "heap"] for p in itertools.product(SMALL_OPS[:NSTD_OPS], repeat=4)]
     fam = boundary_family(6 if quick else 12)
     bl = tagged("backlog", backlog_family(quick))
     af = tagged("attach-after-owning", attach_family(6 if quick else 12))
@@ -749,8 +756,9 @@ def histories_for(ctx):
     rnd = [gen_history(rng, rng.choice([5, 10, 20, 40])) for _ in range(nr)]
     rnd += [gen_history(rng, rng.choice([10, 30, 60]), big=True) for _ in range(nr // 6)]
     rnd += [gen_server(rng, rng.choice([10, 40])) for _ in range(nr // 10)]
-    ctx.cov["rule"] = (f"corpus ({ncorpus}) + exhaustive: all op sequences of length <= {3 if quick else 4} over a {len(SMALL_OPS)}-op "
-                       f"alphabet (sizes 0,1,3,4,5; attach; self/other arguments)"
+    ctx.cov["rule"] = (f"corpus ({ncorpus}) + exhaustive: all op sequences of length <= 3 over a {len(SMALL_OPS)}-op "
+                       f"alphabet (sizes 0,1,3,4,5; attach; self/other arguments; raw pointers into the own allocation)"
+                       + ("" if quick else f" and of length 4 over its first {NSTD_OPS} ops") +
                        f" ({len(ex)} histories) + capacity/head-room boundary family: capacity 0..{6 if quick else 12} x bytes held x bytes removed x "
                        f"every growing/shrinking op with sizes 0..capacity+2 ({len(fam)} histories) + scripted send-backlog streams on a default Buffer: every "
                        f"append a; removeFront r; append n; removeFront r2; append n2 with a <= {5 if quick else 7} plus two boundary-aimed sliding rounds after first chunks "
@@ -759,7 +767,7 @@ def histories_for(ctx):
                        "sizes 0..16, boundary sizes relative to the current lengths, 1/7 with sizes up to 300, 1/11 following the Server.cpp send-backlog pattern); "
                        "distinct_nontrivial = distinct (op-kind set, final observation) among histories with >= 3 ops and a non-empty final buffer")
     ctx.cov["exhaustive"] = True   # the enumerated scope is run completely (the random part is sampled)
-    ctx.cov["exhaustive_scope"] = f"length<={3 if quick else 4} over {len(SMALL_OPS)} ops: {len(ex)} histories; boundary family: {len(fam)} histories; send-backlog family: {len(bl)} histories; attach-after-owning family: {len(af)} histories"
+    ctx.cov["exhaustive_scope"] = f"length<=3 over {len(SMALL_OPS)} ops{'' if quick else f', length 4 over {NSTD_OPS} ops'}: {len(ex)} histories; boundary family: {len(fam)} histories; send-backlog family: {len(bl)} histories; attach-after-owning family: {len(af)} histories"
     return hs + ex + fam + bl + af + rnd
 
 
